@@ -357,6 +357,8 @@ fn family_offset_grids(ctx: &Ctx, which: Which, st: &Stats) -> u64 {
         let len = base.len();
         let area = len - codec::header_len(cnt);
         let fam = format!("offset-grid:{}", name);
+        // every value (aligned or not) for messages up to 1.5 KiB, every aligned value beyond
+        let step = if len <= 1536 { 1 } else { 4 };
         for w in 0..noff {
             let mut v = 0usize;
             while v <= len + 16 {
@@ -364,11 +366,12 @@ fn family_offset_grids(ctx: &Ctx, which: Which, st: &Stats) -> u64 {
                 b[4 + 4 * w..8 + 4 * w].copy_from_slice(&(v as u32).to_le_bytes());
                 record(ctx, which, st, &fam, &b);
                 n += 1;
-                v += 4;
+                v += step;
             }
         }
+        // pairs: aligned landmarks and misaligned values (pairs whose misalignments cancel included)
         let grid: Vec<usize> = {
-            let mut g = vec![0, 4, 8, 12, 32, 64, area.saturating_sub(4), area, area + 4, area + 8, len.saturating_sub(4), len, len + 4];
+            let mut g = vec![0, 1, 2, 3, 4, 5, 6, 7, 8, 12, 32, 34, 64, area.saturating_sub(4), area.saturating_sub(2), area.saturating_sub(1), area, area + 1, area + 2, area + 4, area + 8, len.saturating_sub(4), len, len + 4];
             g.sort();
             g.dedup();
             g
